@@ -93,6 +93,7 @@ Inductive out :=
 | OEnd (h : option N)
 | OIter (p : option (list conn))       (* None: transit gate, no iterator *)
 | OSent
+| ORule
 | OInvalid                             (* script names a gate that does not exist *)
 | OPanic (site : N)
 | OOutOfFuel.
@@ -167,30 +168,70 @@ Fixpoint handle_with_sink (fuel : nat) (gs : gates) (cur : conn) (now last : N) 
       end
   end.
 
+(* The header fields of the message OBJECT that C08 talks about.  A message that
+   was delivered and is sent on by the receiving module (forwarded, echoed) still
+   carries the values stamped on its previous leg.  None = ModuleId::NULL / no gate. *)
+Record header := { h_sender : option N; h_receiver : option N; h_last : option N }.
+Definition fresh_header : header := {| h_sender := None; h_receiver := None; h_last := None |}.
+Definition hN (o : option N) : N := match o with Some x => x | None => 0 end.
+
 Record delivery := { d_to : N; d_time : N; d_sender : N; d_receiver : N; d_last : N }.
+(* the header of the delivered object, as handle_message sees it *)
+Definition hdr_of (d : delivery) : header :=
+  {| h_sender := Some (d_sender d); h_receiver := Some (d_receiver d); h_last := Some (d_last d) |}.
 
 Inductive sres := SDelivered (d : delivery) | SPanic (site : N) | SOutOfFuel.
 
-(* buf_send_at(msg, gate, send_time) called by module [sender]; whether the
-   walk starts inline (send_time = now) or from a MessageExitingConnection event
-   at send_time, it is handle_with_sink on Connection::new(gate) at send_time;
+(* buf_send_at(msg, gate, send_time) called by module [cur] on a message whose
+   header is [h]: `msg.header.sender_module_id = current().id()` is unconditional.
+   Whether the walk starts inline (send_time = now) or from a
+   MessageExitingConnection event at send_time, it is handle_with_sink on
+   Connection::new(gate) at send_time (which overwrites last_gate);
    HandleMessageEvent::handle stamps receiver_module_id with the handling module. *)
-Definition buf_send_at (gs : gates) (sender g send_time : N) : sres :=
+Definition buf_send_at (gs : gates) (h : header) (cur g send_time : N) : sres :=
+  let h1 := {| h_sender := Some cur; h_receiver := h_receiver h; h_last := h_last h |} in
   match lookup gs g with
   | None => SPanic 0
   | Some x =>
       if Nat.ltb 1 (len x) then SPanic 3                         (* Connection::new: assert!(len <= 1) *)
       else match handle_with_sink (fuel_of gs) gs (new_unchecked g) send_time g with
-           | Some (o, t, l) => SDelivered {| d_to := o; d_time := t; d_sender := sender; d_receiver := o; d_last := l |}
+           | Some (o, t, l) =>
+               SDelivered {| d_to := o; d_time := t; d_sender := hN (h_sender h1); d_receiver := o; d_last := l |}
            | None => SOutOfFuel
            end
+  end.
+
+(* RELAY: a forwarding rule (g, g', dl) makes the module that receives a message
+   through gate g (header.last_gate = g) send THE RECEIVED message object on gate
+   g' after dl ns, as long as the hop budget carried in the message content is
+   not used up.  g' = g echoes the message back along the chain it arrived on. *)
+Definition rule := (N * N * N)%type.
+Fixpoint find_rule (rules : list rule) (g : N) : option (N * N) :=
+  match rules with
+  | [] => None
+  | (a, b, dl) :: r => if a =? g then Some (b, dl) else find_rule r g
+  end.
+
+(* all legs of one message: (leg number, result); [budget] = relays still allowed *)
+Fixpoint legs (budget : nat) (gs : gates) (rules : list rule) (h : header) (cur g send_time leg : N)
+  : list (N * sres) :=
+  let r := buf_send_at gs h cur g send_time in
+  (leg, r) ::
+  match r, budget with
+  | SDelivered d, S b' =>
+      match find_rule rules (d_last d) with
+      | Some (g', dl) => legs b' gs rules (hdr_of d) (d_to d) g' (d_time d + dl) (leg + 1)
+      | None => []
+      end
+  | _, _ => []
   end.
 
 (* ---- scripts ---- *)
 Inductive op :=
 | Connect (a b : N) (ch : option N)
 | Kind (g : N) | NextGate (g : N) | PathEnd (g : N) | PathIter (g : N)
-| Send (g t d : N).
+| Send (g t d b : N)          (* b = relay budget *)
+| Relay (g g' d : N).
 
 Definition any_poisoned (s : state) (l : list N) : bool := existsb (is_poisoned s) l.
 
@@ -239,7 +280,8 @@ Definition step (s : state) (o : op) : state * out :=
   | NextGate g => (s, q_next s g)
   | PathEnd g => (s, q_end s g)
   | PathIter g => (s, q_iter s g)
-  | Send g _ _ => (s, match lookup (sgates s) g with Some _ => OSent | None => OInvalid end)
+  | Send g _ _ _ => (s, match lookup (sgates s) g with Some _ => OSent | None => OInvalid end)
+  | Relay g g' _ => (s, match lookup (sgates s) g, lookup (sgates s) g' with Some _, Some _ => ORule | _, _ => OInvalid end)
   end.
 
 Fixpoint exec (s : state) (ops : list op) : state * list out :=
@@ -250,19 +292,31 @@ Fixpoint exec (s : state) (ops : list op) : state * list out :=
   end.
 
 (* the sends of a script, in order, restricted to existing gates *)
-Fixpoint sends_of (gs : gates) (ops : list op) : list (N * N * N) :=
+Fixpoint sends_of (gs : gates) (ops : list op) : list (N * N * N * N) :=
   match ops with
   | [] => []
-  | Send g t d :: r => match lookup gs g with
-                       | Some _ => (g, t, d) :: sends_of gs r
-                       | None => sends_of gs r
-                       end
+  | Send g t d b :: r => match lookup gs g with
+                         | Some _ => (g, t, d, b) :: sends_of gs r
+                         | None => sends_of gs r
+                         end
   | _ :: r => sends_of gs r
   end.
 
-(* send number k: at time t the owner of g calls send_at(msg, g, t + d) *)
-Definition send_one (gs : gates) (x : N * N * N) : sres :=
-  let '(g, t, d) := x in buf_send_at gs (owner_of gs g) g (t + d).
+(* the forwarding rules of a script, in order, restricted to existing gates *)
+Fixpoint rules_of (gs : gates) (ops : list op) : list rule :=
+  match ops with
+  | [] => []
+  | Relay g g' d :: r => match lookup gs g, lookup gs g' with
+                         | Some _, Some _ => (g, g', d) :: rules_of gs r
+                         | _, _ => rules_of gs r
+                         end
+  | _ :: r => rules_of gs r
+  end.
+
+(* send number k: at time t the owner of g calls send_at(fresh msg, g, t + d);
+   the message is relayed at most b times *)
+Definition send_one (gs : gates) (rules : list rule) (x : N * N * N * N) : list (N * sres) :=
+  let '(g, t, d, b) := x in legs (N.to_nat b) gs rules fresh_header (owner_of gs g) g (t + d) 0.
 
 Fixpoint mk_gates (k : N) (owners : list N) : gates :=
   match owners with
@@ -276,7 +330,9 @@ Definition init (owners : list N) : state := {| sgates := mk_gates 0 owners; poi
 (* script: nmod L (owner size){L/2} op*
      op = 1 a b l   connect(a, b, channel: l = 0 none, else latency l-1 ns)
         | 2 g kind | 3 g next_gate | 4 g path_end | 5 g path_iter
-        | 6 g t d   at time t the owner of g calls send_at(msg, g, t+d) *)
+        | 6 g t d   at time t the owner of g calls send_at(msg, g, t+d)
+        | 7 g g' d  forwarding rule: a message received through g is sent on, as the same object, on g' after d ns
+        | 8 g t d b as 6, with a budget of min(b,8) relays *)
 Definition clamp (lo hi x : N) : N := N.max lo (N.min hi x).
 
 Fixpoint groups (nm : N) (l : list N) : list N :=
@@ -294,7 +350,9 @@ Definition dec_op (l : list N) : option (op * list N) :=
   | 3 :: g :: r => Some (NextGate g, r)
   | 4 :: g :: r => Some (PathEnd g, r)
   | 5 :: g :: r => Some (PathIter g, r)
-  | 6 :: g :: t :: d :: r => Some (Send g t d, r)
+  | 6 :: g :: t :: d :: r => Some (Send g t d 0, r)
+  | 7 :: g :: g' :: d :: r => Some (Relay g g' d, r)
+  | 8 :: g :: t :: d :: b :: r => Some (Send g t d (N.min b 8), r)
   | _ => None
   end.
 
@@ -310,24 +368,30 @@ Definition enc_out (o : out) : list N :=
   | OIter None => [5; 0]
   | OIter (Some p) => 5 :: 1 :: N.of_nat (length p) :: flat_map (fun c => [endpoint c; enc_opt (channel c)]) p
   | OSent => [6]
+  | ORule => [14]
   | OInvalid => [7]
   | OOutOfFuel => [8]
   | OPanic s => [9; s]
   end.
 
-Fixpoint enc_sends (k : N) (l : list sres) : list N :=
+Definition enc_leg (k : N) (x : N * sres) : list N :=
+  match x with
+  | (leg, SDelivered d) => [11; k; leg; d_to d; d_time d; d_sender d; d_receiver d; d_last d + 1]
+  | (leg, SPanic s) => [12; k; leg; s]
+  | (_, SOutOfFuel) => [8]
+  end.
+
+Fixpoint enc_sends (k : N) (l : list (list (N * sres))) : list N :=
   match l with
   | [] => []
-  | SDelivered d :: r => [11; k; d_to d; d_time d; d_sender d; d_receiver d; d_last d + 1] ++ enc_sends (k + 1) r
-  | SPanic s :: r => [12; k; s] ++ enc_sends (k + 1) r
-  | SOutOfFuel :: r => [8] ++ enc_sends (k + 1) r
+  | x :: r => flat_map (enc_leg k) x ++ enc_sends (k + 1) r
   end.
 
 Definition run_script (owners : list N) (ops : list op) : list N :=
   let '(s, outs) := exec (init owners) ops in
   flat_map enc_out outs ++
   match poisoned s with
-  | [] => enc_sends 0 (map (send_one (sgates s)) (sends_of (sgates s) ops))
+  | [] => enc_sends 0 (map (send_one (sgates s) (rules_of (sgates s) ops)) (sends_of (sgates s) ops))
   | _ => [10]          (* a mutex is poisoned: the simulation is not run *)
   end.
 
